@@ -6,3 +6,4 @@ cd "$here"
 export CARGO_NET_OFFLINE=true
 (cd driver && cargo build --release --offline)
 python3-vt sa/facts.py
+python3-vt -c "import sys; sys.path.insert(0, '.'); from sa import fixtures; r = fixtures.ensure(); print('controls', sum(r.values()), '/', len(r))"
